@@ -153,7 +153,8 @@ func isValidParamName(name string) error {
 	}
 
 	// check if the remaining characters are letters, digits, or underscores
-	for _, r := range name[1:] {
+	// (the first character may be longer than one byte)
+	for _, r := range name[len(string(r)):] {
 		if !unicode.IsLetter(r) && !unicode.IsDigit(r) && r != '_' {
 			return fmt.Errorf(
 				"the variable name can only contain letters, digits, and underscores, invalid character %c found", r)
